@@ -207,6 +207,8 @@ def perturbations(rnd, spec):
                 for t in ("autoscaling", "on-premise", "serverless"):
                     if t != vs[1]:
                         out.append((n, p, ["s", t], "-> " + t))
+            elif vs[0] == "none" and p == "fixed_nb_of_instances":
+                out.append((n, p, ["q", 1e6, "dimensionless"], "empty -> 1e6 instances"))
             elif vs[0] == "tz":
                 out.append((n, p, ["tz", "Asia/Kolkata" if vs[1] != "Asia/Kolkata" else "America/New_York"], "other zone"))
     return out
@@ -287,8 +289,17 @@ def run_case(case):
             m.set_updated_values(); classes.add("after_toggle_on")
             # the simulated state is a different model: only the structure is asserted on it (the spec describes the baseline)
             C["structure_checks"] += 1
-            graph(E, observe.all_objects(h.system), V, C, dict(ctx, when="simulation toggled on"))
+            V_on = []
+            graph(E, observe.all_objects(h.system), V_on, C, dict(ctx, when="simulation toggled on"))
+            for v in V_on:
+                if v["kind"].startswith("ancestor listed by a value is not held") and v.get("ancestor") == "DETACHED":
+                    v["mechanism"] = "F24-simulated-state-lists-detached-baseline-values"
+            V.extend(V_on[:3])
             m.reset_values()
+            if all(v.get("mechanism") for v in V):
+                V_known, V = V, []
+            else:
+                V_known = []
             if not V:
                 C["structure_checks_after_simulation"] += 1
                 anc, chi = quiescent(E, h, V, C, dict(ctx, when="after toggling the simulation on and off"))
@@ -296,7 +307,24 @@ def run_case(case):
     if not V:
         completeness(E, h, anc, V, C, rnd, case["tier"])
         nt = C["perturbations_with_effect"] > 0
+    V = V + (locals().get("V_known") or [])
     for v in V:
         v.setdefault("history", h.log[-4:])
     return {"counters": C, "classes": sorted(classes), "violations": V[:4], "nontrivial": nt,
             "digest": observe.digest(observe.snapshot(h.system)), "sample": h.summary() if case["idx"] < 3 else None}
+
+
+def witness(fid):
+    if fid != "F24":
+        return None
+    from datetime import datetime, timezone
+    E = env.load()
+    spec = gen.base_spec()
+    env.seed_ids(5)
+    o = build(spec)
+    m = E.ModelingUpdate([[o["j1"].server, o["srv2"]]], datetime(2025, 1, 1, 2, tzinfo=timezone.utc))
+    m.set_updated_values()
+    V, C = [], {"values_checked": 0, "edges_checked": 0}
+    graph(E, observe.all_objects(o["system"]), V, C, {})
+    m.reset_values()
+    return any(v.get("ancestor") == "DETACHED" for v in V)
